@@ -144,7 +144,7 @@ def translate_pattern(pattern: str, flags: int = 0, xsd_version: str = '1.0',
                     regex.append(char_class_repr)
 
         elif ch == '{':
-            if pos == 0:
+            if pos == 0 or pattern[pos - 1] in '(|' and (pos == 1 or pattern[pos - 2] != '\\'):
                 msg = "unexpected quantifier {!r} at position {}: {!r}"
                 raise RegexError(msg.format(ch, pos, pattern))
 
@@ -164,7 +164,7 @@ def translate_pattern(pattern: str, flags: int = 0, xsd_version: str = '1.0',
 
             regex.append(match.group())
             pos += len(match.group())
-            if pos < pattern_len and pattern[pos] in '?+*':
+            if pos < pattern_len and pattern[pos] in '?+*{':
                 if not lazy_quantifiers or pattern[pos] != '?':
                     msg = "unexpected meta character {!r} at position {}: {!r}"
                     raise RegexError(msg.format(pattern[pos], pos, pattern))
@@ -192,7 +192,9 @@ def translate_pattern(pattern: str, flags: int = 0, xsd_version: str = '1.0',
             regex.append(ch)
 
         elif ch in ('?', '*', '+'):
-            if pos == 0:
+            if pos == 0 or pattern[pos - 1] in '(|' \
+                    and (not back_references or pattern[pos - 1:pos + 2] != '(?:') \
+                    and (pos == 1 or pattern[pos - 2] != '\\'):
                 msg = "unexpected quantifier {!r} at position {}: {!r}"
                 raise RegexError(msg.format(ch, pos, pattern))
             elif pos < pattern_len - 1 and pattern[pos + 1] in '?+*{':
@@ -269,7 +271,7 @@ def translate_pattern(pattern: str, flags: int = 0, xsd_version: str = '1.0',
                 else:
                     regex.append(p_shortcut_group)
 
-            elif pattern[pos] in 'nrt\\|.?*+(){}-[]^$sSdDwW':
+            elif pattern[pos] in 'nrtsSdDwW' or not pattern[pos].isalnum():
                 regex.append('\\%s' % pattern[pos])
             else:
                 msg = "invalid escape sequence '\\{}' at position {}: {!r}"
